@@ -10,7 +10,9 @@ CFG = {
         "skel": {"header": HDR6, "model_fn": "model_skel", "rule": "O"},
     },
     "rule_text": "runtime oracle (the tie for the part a Gallina model cannot exhibit): every input is registered with add_raw_template and "
-                 "rendered with render_str in a child process, once on a 2 MiB thread and once on the 8 MiB main thread, 30 s per input; "
+                 "rendered with render_str in a child process, once on a 2 MiB thread and once on the 8 MiB main thread, 20 s per input; an input without a result is run again ALONE with 20 x the median time of "
+                 "its neighbours (10..60 s) before it is a confirmed hang; three confirmed hangs, or the internal deadline (780 s quick / 1800 s thorough, below "
+                 "the driver's), end the scheduling and what was observed is written out; "
                  "outcome must be Ok or Err (exit by signal, panic - catch_unwind and panic hook -, or timeout = violation). Streams: hand-written "
                  "corner cases; every prefix and every single-character deletion of every snapshot-corpus template (sampled 1/6 in quick, all in "
                  "thorough) and of 14 base templates; 9 line-ending flavours (LF, CRLF, lone CR, LF CR, U+2028, U+0085, VT, FF, mixed) x 31 sources whose "
@@ -20,7 +22,8 @@ CFG = {
                  "every Err is formatted with {}, {:?}, {:#?} and along source(); multi-byte characters next to every delimiter; 26 nesting constructs at 1..7, 19..21, 34..44, "
                  "80, 100, 1000, 10^5, everything-at-its-limit recipes, elif chains nested in the last elif / else branch of one another "
                  "(2..38 chains of 100..500 elifs); 27 chain constructs at 10..10^5; 400-digit numbers; unterminated strings/comments/raw/tags of 100 KB; "
-                 "25 delimiter sets (14 accepted incl. 2-byte characters, `-`, quotes, whitespace; 11 rejected must return Err) x base templates "
+                 "every character prefix of every delimiter (and the delimiter, repeated) as the last bytes of a source, alone / after text / after a tag / "
+                 "after a comment / after a raw block, for the 14 accepted delimiter sets; 25 delimiter sets (14 accepted incl. 2-byte characters, `-`, quotes, whitespace; 11 rejected must return Err) x base templates "
                  "x prefixes; 16 template names x 7 sources; random splices of corpus templates. Evaluations = inputs x 2 stacks; non-trivial = "
                  "source of at least 8 bytes. skel: token lists of the skeleton grammar (generated documents, truncations, inside-token mutations, "
                  "every nesting construct around its limit, chains) printed as template text: accept/reject, Display parenthesis depth and "
